@@ -29,8 +29,9 @@ MODULE_KINDS = [
     "abstract interface",
     "operator interface",
     "generic interface of bodies",
+    "type with constructor",
 ]
-ATTR_KINDS = ("variable", "parameter", "type")  # kinds whose declaration can carry an access attribute
+ATTR_KINDS = ("variable", "parameter", "type", "type with constructor")  # kinds whose declaration can carry an access attribute
 
 
 def legal(kind, attr, stmt):
@@ -71,6 +72,10 @@ def entity_lines(kind, n, attr, case=0):
         return [f"integer, parameter{a} :: {name} = {n}"], []
     if kind == "type":
         return [f"type{a} :: {name}", f"  integer :: c{n}", "end type"], []
+    if kind == "type with constructor":
+        # a derived type and the generic interface overloading its constructor: one identifier, one accessibility
+        return ([f"type{a} :: {name}", f"  integer :: c{n}", "end type", f"interface {name}", f"  module procedure mk{n}", "end interface"],
+                [f"function mk{n}(c) result(r)", "  integer, intent(in) :: c", f"  type({name}) :: r", f"  r%c{n} = c", f"end function mk{n}"])
     if kind == "subroutine":
         return [], [f"subroutine {name}()", f"end subroutine {name}"]
     if kind == "function":
@@ -140,6 +145,7 @@ def find_entity(mod, kind, n):
         "variable": "variables",
         "parameter": "variables",
         "type": "types",
+        "type with constructor": "types",
         "subroutine": "subroutines",
         "function": "functions",
         "generic interface": "interfaces",
@@ -173,6 +179,14 @@ def run_module_case(st: Stats, default, default_pos, ents, context, stratum):
         found = find_entity(mods[0], kind, n) if mods else []
         got = found[0].permission if len(found) == 1 else f"<{len(found)} entities>"
         obs_all.append(got)
+        if kind == "type with constructor" and mods:
+            ifs = [i for i in mods[0].interfaces if (i.name or "").lower() == f"e{n}"]
+            igot = ifs[0].permission if len(ifs) == 1 else f"<{len(ifs)} interfaces>"
+            if igot != want:
+                bad += 1
+                st.violation("wrong-permission", stratum, dict(kind="constructor interface", default=default, default_pos=default_pos if default != "none" else "-", attr=attr,
+                                                                stmt=stmt, stmt_pos=stmt_pos if stmt != "none" else "-", expected=want, observed=igot, n_entities=len(ents), case=(rest[0] if rest else 0)),
+                             inp, igot, want)
         if kind == "generic interface of bodies" and len(found) == 1:
             body = [p for p in list(getattr(found[0], "subroutines", [])) + list(getattr(found[0], "functions", [])) if p.name.lower() == f"gb{n}"]
             body_got = body[0].permission if len(body) == 1 else f"<{len(body)} bodies>"
